@@ -499,12 +499,26 @@ fn failed_server_logins(seed: u64, rep: &Report) -> Result<(), String> {
         }
     }
     // quiescent point: two identical consecutive samples
+    // (a connection the pooler has just dropped is still open at the backend until the backend's
+    // thread has seen the FIN, and one being opened is not listed yet: the comparison is repeated
+    // until it agrees, and only a disagreement that persists for 2.5 s is reported)
     sleep_ms(400);
-    let live = cell.mocks[0].ctl.live_sessions();
-    let servers = admin_rows(&mut adm, "SHOW SERVERS")?;
-    let pools = admin_rows(&mut adm, "SHOW POOLS")?;
+    let mut live = cell.mocks[0].ctl.live_sessions();
+    let mut servers = admin_rows(&mut adm, "SHOW SERVERS")?;
+    let mut pools = admin_rows(&mut adm, "SHOW POOLS")?;
+    let login = |pools: &Vec<BTreeMap<String, String>>| -> i64 { pools.iter().filter(|r| r.get("database").map(|d| d.as_str()) == Some("db")).map(|r| num(r, "sv_login")).sum() };
+    for _ in 0..7 {
+        if servers.len() == live && login(&pools) == 0 {
+            break;
+        }
+        rep.count("failed_server_login_samples_repeated", 1);
+        sleep_ms(300);
+        live = cell.mocks[0].ctl.live_sessions();
+        servers = admin_rows(&mut adm, "SHOW SERVERS")?;
+        pools = admin_rows(&mut adm, "SHOW POOLS")?;
+    }
     rep.count("failed_server_login_scenarios", 1);
-    let sv_login: i64 = pools.iter().filter(|r| r.get("database").map(|d| d.as_str()) == Some("db")).map(|r| num(r, "sv_login")).sum();
+    let sv_login: i64 = login(&pools);
     if servers.len() != live || sv_login != 0 {
         rep.violation(
             "C18|server_rows_left_behind_by_failed_server_logins",
